@@ -95,12 +95,13 @@ func plan(tier string, seed int64) []run.Batch {
 			Params: map[string]string{"from": fmt.Sprint(from), "to": fmt.Sprint(to)}})
 	}
 	if tier != "thorough" {
-		for i := 0; i < 40; i += 3 {
-			to := i + 3
-			if to > 40 {
-				to = 40
-			}
-			add("random", i, to, 100)
+		// 160 random scenarios plus a 256-pattern slice of the exhaustive loss space
+		for i := 0; i < 160; i += 5 {
+			add("random", i, i+5, 150)
+		}
+		x := int(uint64(seed)*2654435761%uint64(1<<(2*exhaustiveM))) &^ 63
+		for i := 0; i < 256; i += 64 {
+			add("exhaustive", (x+i)%(1<<(2*exhaustiveM)), (x+i)%(1<<(2*exhaustiveM))+64, 240)
 		}
 		return bs
 	}
